@@ -26,8 +26,8 @@ def run(ctx):
     ctx.rule('C14.STATE', lambda: rule_state(ctx), 3)
     ctx.rule('C14.CANCEL', lambda: rule_cancel(ctx), 6)
     ctx.rule('C14.HANDOVER', lambda: rule_handover(ctx), 4)
-    ctx.rule('C14.ROWKEYS', lambda: rule_rowkeys(ctx), 4)
-    ctx.rule('C14.GROUPING', lambda: rule_grouping(ctx), 4)
+    ctx.rule('C14.ROWKEYS', lambda: rule_rowkeys(ctx), 3)
+    ctx.rule('C14.GROUPING', lambda: rule_grouping(ctx), 3)
 
 
 def rule_batch(ctx):
@@ -108,19 +108,22 @@ def rule_state(ctx):
     g = ctx.func('hist', 'History._compact_history')
     cs = q.calls_resolving_to(ctx, g, f)
     d = df.defs(g)
-    curdefs = [rhs for st, rhs in d.get('cursor', []) if isinstance(st, ast.Assign)]
-    okc = len(cs) == 1 and [norm(a) for a in cs[0].args] == ['cursor', 'write_items', 'keys_to_delete'] and \
-        len(curdefs) == 1 and ctx.res.canon(curdefs[0], g) == 'self.comp_cursor'
-    wl = [s for s in g.node.body if isinstance(s, ast.While)]
-    okw = False
-    if len(wl) == 1:
-        conj = {norm(x) for x in pr.conjuncts(wl[0].test)}
-        incs = [s for s in wl[0].body if isinstance(s, ast.AugAssign) and norm(s.target) == 'cursor' and const_value(s.value) == 1]
-        pre = [s for s in wl[0].body if isinstance(s, ast.Assign) and norm(s.value) == 'pack_be_uint16(cursor)']
-        okw = any(q.cmp_matches(ctx, g, x, 'cursor < 65536') for x in pr.conjuncts(wl[0].test)) and len(incs) == 1 and len(pre) == 1 and pre[0].lineno < incs[0].lineno
+    okc = okw = False
+    if len(cs) == 1 and len(cs[0].args) == 3 and all(isinstance(a, ast.Name) for a in cs[0].args):
+        curv, wi, kd = [a.id for a in cs[0].args]
+        curdefs = [rhs for st, rhs in d.get(curv, []) if isinstance(st, ast.Assign)]
+        okc = len(curdefs) == 1 and ctx.res.canon(curdefs[0], g) == 'self.comp_cursor'
+        wl = [s for s in g.node.body if isinstance(s, ast.While)]
+        if len(wl) == 1:
+            incs = [s for s in wl[0].body if isinstance(s, ast.AugAssign) and norm(s.target) == curv and const_value(s.value) == 1 and isinstance(s.op, ast.Add)]
+            pre = [s for s in wl[0].body if isinstance(s, ast.Assign) and norm(s.value) == f'pack_be_uint16({curv})']
+            cp = ctx.func('hist', 'History._compact_prefix')
+            pcs = [c for c in walk_own(wl[0]) if isinstance(c, ast.Call) and ctx.res.resolve_ref(c.func, g) is not None and ctx.res.resolve_ref(c.func, g).key == cp.key]
+            okw = any(q.cmp_matches(ctx, g, x, f'{curv} < 65536') for x in pr.conjuncts(wl[0].test)) and len(incs) == 1 and len(pre) == 1 \
+                and pre[0].lineno < incs[0].lineno and len(pcs) == 1 and [norm(a) for a in pcs[0].args] == [norm(pre[0].targets[0]), wi, kd]
     ctx.check(okc and okw, 'C14.STATE', ctx.key(g, None, 'cursor walk'),
-              'a pass starts at comp_cursor, walks big-endian 2-byte prefixes upwards one by one (below 65536) and persists where it stopped',
-              'the prefix walk does not start at comp_cursor / advance by one be16 prefix / persist the reached cursor', loc=ctx.loc(g, g.node))
+              'a pass starts at comp_cursor, walks big-endian 2-byte prefixes upwards one by one (below 65536), compacting each into the pass\'s sets, and persists where it stopped',
+              'the prefix walk does not start at comp_cursor / advance by one be16 prefix / compact each prefix into the sets it persists', loc=ctx.loc(g, g.node))
     return n + 1
 
 
@@ -220,35 +223,39 @@ def rule_handover(ctx):
 def rule_rowkeys(ctx):
     f = ctx.func('hist', 'History._compact_hashX')
     cfg = ctx.cfg(f)
+    hx, hmap, hlist, witems, kdel = f.params[1:6]
+    d = df.defs(f)
     n = 0
     loops = [s for s in f.node.body if isinstance(s, ast.For)]
     ok, why = False, 'chunk loop not found'
-    if len(loops) == 1 and isinstance(loops[0].iter, ast.Call) and norm(loops[0].iter.func) == 'enumerate' \
-            and isinstance(loops[0].target, ast.Tuple):
+    nv = cv = keyv = None
+    lp = None
+    if len(loops) == 1 and isinstance(loops[0].iter, ast.Call) and norm(loops[0].iter.func) == 'enumerate' and isinstance(loops[0].target, ast.Tuple):
         lp = loops[0]
         nv, cv = [norm(e) for e in lp.target.elts]
         inner = lp.iter.args[0]
         start0 = not lp.iter.keywords and len(lp.iter.args) == 1
-        chunks_ok = isinstance(inner, ast.Call) and q.callee_name(ctx, f, inner).endswith('chunks') and norm(inner.args[0]) == 'full_hist' \
-            and norm(inner.args[1]) == 'max_row_size'
-        keys = [s for s in lp.body if isinstance(s, ast.Assign) and norm(s.value) == f'{f.params[1]} + pack_be_uint16({nv})']
-        ok = start0 and chunks_ok and len(keys) == 1
-        why = f'enumerate from 0 ok={start0}, fixed-size chunks of the joined history ok={chunks_ok}, key = hashX + be16(n) ok={len(keys) == 1}'
+        chunks_ok = False
+        if isinstance(inner, ast.Call) and q.callee_name(ctx, f, inner).endswith('chunks') and len(inner.args) == 2:
+            srcv, sizev = inner.args
+
+            def single(e):
+                if isinstance(e, ast.Name) and len(d.get(e.id, [])) == 1:
+                    return d[e.id][0][1]
+                return e
+            src, size = single(srcv), single(sizev)
+            chunks_ok = norm(src) == f"b''.join({hlist})" and norm(size) in ('self.max_hist_row_entries * 5', '5 * self.max_hist_row_entries')
+        keys = [s for s in lp.body if isinstance(s, ast.Assign) and isinstance(s.targets[0], ast.Name) and norm(s.value) == f'{hx} + pack_be_uint16({nv})']
+        keyv = keys[0].targets[0].id if len(keys) == 1 else None
+        ok = start0 and chunks_ok and keyv is not None
+        why = f'enumerate from 0 ok={start0}, fixed-size chunks of the in-order join of the rows ok={chunks_ok}, key = hashX + be16(n) ok={keyv is not None}'
     ctx.check(ok, 'C14.ROWKEYS', ctx.key(f, None, 'row keys'),
-              'compacted rows are the fixed-size chunks of the joined history, keyed hashX + big-endian enumeration index from 0',
-              'compacted rows are not keyed hashX + be16(index from 0) over fixed-size chunks: ' + why, loc=ctx.loc(f, f.node))
-    n += 1
-    d = df.defs(f)
-    fh = [rhs for st, rhs in d.get('full_hist', [])]
-    mr = [rhs for st, rhs in d.get('max_row_size', [])]
-    okj = len(fh) == 1 and norm(fh[0]) == f"b''.join({f.params[3]})" and len(mr) == 1 and norm(mr[0]) in ('self.max_hist_row_entries * 5', '5 * self.max_hist_row_entries')
-    ctx.check(okj, 'C14.ROWKEYS', ctx.key(f, None, 'joined in order, 5-byte entries'),
-              'the history is the in-order join of the rows; a row holds max_hist_row_entries 5-byte entries',
-              'the joined history / row size is not (join of hist_list in order, max_hist_row_entries * 5)', loc=ctx.loc(f, f.node))
+              'compacted rows are the fixed-size (max_hist_row_entries * 5 bytes) chunks of the in-order join of the rows, keyed hashX + big-endian enumeration index from 0',
+              'compacted rows are not keyed hashX + be16(index from 0) over fixed-size chunks of the joined history: ' + why, loc=ctx.loc(f, f.node))
     n += 1
     mx = [s for s in q.assigns(ctx, f, 'self.comp_flush_count')]
-    okm = len(mx) == 1 and isinstance(mx[0].value, ast.Call) and norm(mx[0].value.func) == 'max' and \
-        sorted(norm(a) for a in mx[0].value.args) == sorted(['self.comp_flush_count', nv if ok else 'n'])
+    okm = len(mx) == 1 and isinstance(mx[0].value, ast.Call) and norm(mx[0].value.func) == 'max' and nv is not None and \
+        sorted(norm(a) for a in mx[0].value.args) == sorted(['self.comp_flush_count', nv])
     p = pr.path_avoiding(cfg, [cfg.entry], [cfg.exit], {cfg.node(mx[0])}) if len(mx) == 1 else [cfg.entry]
     ctx.check(okm and p is None, 'C14.ROWKEYS', ctx.key(f, None, 'largest row number recorded'),
               'comp_flush_count = max(comp_flush_count, last row index) on every path of every script hash',
@@ -256,16 +263,16 @@ def rule_rowkeys(ctx):
               'existing row number and the next history flush overwrites that row', witness=cfg.describe_path(p) if p else None,
               loc=ctx.loc(f, f.node))
     n += 1
-    # keep/rewrite decision
     okd = False
     if ok:
         ifs = [s for s in lp.body if isinstance(s, ast.If)]
         if len(ifs) == 1:
-            t = norm(ifs[0].test)
+            t = ifs[0].test
+            eq = isinstance(t, ast.Compare) and isinstance(t.ops[0], ast.Eq) and {norm(t.left), norm(t.comparators[0])} == {f'{hmap}.get({keyv})', cv}
             body = [norm(x) for x in ifs[0].body]
             els = [norm(x) for x in ifs[0].orelse if not isinstance(x, ast.AugAssign)]
-            okd = t == f'{f.params[2]}.get(key) == {cv}' and body == [f'{f.params[5]}.remove(key)'] and els == [f'{f.params[4]}.append((key, {cv}))']
-        upd = [c for c in q.own_calls(f) if norm(c.func) == f'{f.params[5]}.update' and norm(c.args[0]) == f.params[2]]
+            okd = eq and body == [f'{kdel}.remove({keyv})'] and els == [f'{witems}.append(({keyv}, {cv}))']
+        upd = [c for c in q.own_calls(f) if norm(c.func) == f'{kdel}.update' and norm(c.args[0]) == hmap]
         okd = okd and len(upd) == 1 and q.stmt(upd[0]).lineno < lp.lineno
     ctx.check(okd, 'C14.ROWKEYS', ctx.key(f, None, 'delete all, keep identical'),
               'all old rows are marked for deletion; a new row identical to the stored one is un-marked, any other is written',
@@ -275,44 +282,59 @@ def rule_rowkeys(ctx):
 
 def rule_grouping(ctx):
     f = ctx.func('hist', 'History._compact_prefix')
+    cfg = ctx.cfg(f)
     n = 0
-    loops = [s for s in f.node.body if isinstance(s, ast.For)]
+    loops = [s for s in f.node.body if isinstance(s, ast.For) and isinstance(s.iter, ast.Call) and norm(s.iter.func) == 'self.db.iterator']
     ch = ctx.func('hist', 'History._compact_hashX')
+    calls = q.calls_resolving_to(ctx, f, ch)
+    d = df.defs(f)
     ok = False
-    if len(loops) == 1 and isinstance(loops[0].iter, ast.Call) and norm(loops[0].iter.func) == 'self.db.iterator':
+    hxv = mapv = listv = priorv = keyv = hv = None
+    if len(loops) == 1 and isinstance(loops[0].target, ast.Tuple) and len(calls) == 2 and all(len(c.args) == 5 for c in calls):
         lp = loops[0]
         kws = {k.arg: norm(k.value) for k in lp.iter.keywords}
         keyv, hv = [norm(e) for e in lp.target.elts]
-        skip = lp.body[0]
-        skip_ok = isinstance(skip, ast.If) and norm(skip.test) == f'len({keyv}) != key_len' and isinstance(skip.body[0], ast.Continue)
-        kl = [rhs for st, rhs in df.defs(f).get('key_len', [])]
-        kl_ok = len(kl) == 1 and norm(kl[0]) in ('HASHX_LEN + 2', '2 + HASHX_LEN')
-        hx = [s for s in lp.body if isinstance(s, ast.Assign) and norm(s.value) == f'{keyv}[:-2]']
-        ok = kws == {'prefix': f.params[1]} and skip_ok and kl_ok and len(hx) == 1
+        priorv, mapv, listv = [norm(a) for a in calls[0].args[:3]]
+        skips = [s for s in lp.body if isinstance(s, ast.If) and len(s.body) == 1 and isinstance(s.body[0], ast.Continue) and isinstance(s.test, ast.Compare)
+                 and isinstance(s.test.ops[0], ast.NotEq) and f'len({keyv})' in (norm(s.test.left), norm(s.test.comparators[0]))]
+        kl_ok = False
+        if len(skips) == 1:
+            other = skips[0].test.comparators[0] if norm(skips[0].test.left) == f'len({keyv})' else skips[0].test.left
+            if isinstance(other, ast.Name) and len(d.get(other.id, [])) == 1:
+                other = d[other.id][0][1]
+            kl_ok = norm(other) in ('HASHX_LEN + 2', '2 + HASHX_LEN')
+        hx = [s for s in lp.body if isinstance(s, ast.Assign) and norm(s.value) == f'{keyv}[:-2]' and isinstance(s.targets[0], ast.Name)]
+        hxv = hx[0].targets[0].id if len(hx) == 1 else None
+        ok = kws == {'prefix': f.params[1]} and len(skips) == 1 and kl_ok and hxv is not None and lp.body.index(skips[0]) < lp.body.index(hx[0])
     ctx.check(ok, 'C14.GROUPING', ctx.key(f, None, 'rows of one prefix'),
               'all rows under the prefix are visited in key order; non-history keys (length != HASHX_LEN + 2) are skipped; hashX = key[:-2]',
               'rows are not grouped by key[:-2] over the prefix iterator with non-history keys skipped', loc=ctx.loc(f, f.node))
     n += 1
-    calls = q.calls_resolving_to(ctx, f, ch)
-    okc = len(calls) == 2 and all(norm(c.args[0]) == 'prior_hashX' and [norm(a) for a in c.args[1:]] == ['hist_map', 'hist_list', f.params[2], f.params[3]] for c in calls)
-    ctx.check(okc, 'C14.GROUPING', ctx.key(f, None, 'each group compacted'),
+    okc = ok and all([norm(a) for a in c.args] == [priorv, mapv, listv, f.params[2], f.params[3]] for c in calls)
+    ctx.check(bool(okc), 'C14.GROUPING', ctx.key(f, None, 'each group compacted'),
               'each completed group, and the last one, is compacted with its own rows', 'groups are not each compacted with their own rows',
               loc=ctx.loc(f, f.node))
     n += 1
-    if len(loops) == 1:
+    if ok:
         lp = loops[0]
-        fills = [norm(x) for x in lp.body[-3:]]
-        okf = fills == ['prior_hashX = hashX', f'hist_map[{keyv}] = {hv}', f'hist_list.append({hv})']
-        clears = [norm(c) for c in walk_own(lp) if isinstance(c, ast.Call) and isinstance(c.func, ast.Attribute) and c.func.attr == 'clear']
-        okf = okf and sorted(clears) == ['hist_list.clear()', 'hist_map.clear()']
+        tail = [norm(x) for x in lp.body[-3:]]
+        okf = tail == [f'{priorv} = {hxv}', f'{mapv}[{keyv}] = {hv}', f'{listv}.append({hv})']
+        clears = sorted(norm(c) for c in walk_own(lp) if isinstance(c, ast.Call) and isinstance(c.func, ast.Attribute) and c.func.attr == 'clear')
+        okf = okf and clears == sorted([f'{listv}.clear()', f'{mapv}.clear()'])
+        # the in-loop compaction happens exactly when the script hash changes (and a previous one exists)
+        inloop = [c for c in calls if q.in_body(c, lp.body)]
+        if len(inloop) == 1:
+            conds = pr.control_conditions(q.stmt(inloop[0]), lp)
+            cj = {norm(x) for t, b, _p in conds if b for x in pr.conjuncts(t)}
+            okf = okf and cj in ({f'{hxv} != {priorv}', priorv}, {f'{priorv} != {hxv}', priorv})
+        else:
+            okf = False
+        after = [c for c in calls if not q.in_body(c, lp.body)]
+        okf = okf and len(after) == 1 and [norm(t) for t, b, _p in pr.control_conditions(q.stmt(after[0]), f.node) if b] == [priorv]
         ctx.check(okf, 'C14.GROUPING', ctx.key(f, lp, 'group accumulation'),
-                  'rows accumulate per script hash (map and ordered list) and are reset when the script hash changes',
-                  'per-script-hash accumulation / reset is not as required', loc=ctx.loc(f, lp))
+                  'rows accumulate per script hash (map and ordered list); a group is compacted and reset when the script hash changes, the last one after the loop',
+                  'per-script-hash accumulation / compaction / reset is not as required', loc=ctx.loc(f, lp))
         n += 1
-    g = ctx.func('hist', 'History._compact_history')
-    cs = q.calls_resolving_to(ctx, g, f)
-    okp = len(cs) == 1 and [norm(a) for a in cs[0].args] == ['prefix', 'write_items', 'keys_to_delete']
-    ctx.check(okp, 'C14.GROUPING', ctx.key(g, None, 'prefix compaction'),
-              'each prefix of the walk is compacted into the shared write / delete sets', 'prefixes are not compacted into the pass\'s sets',
-              loc=ctx.loc(g, g.node))
-    return n + 1
+    return n
+
+
